@@ -279,3 +279,21 @@ pub proof fn lemma_word_zero_bits(w: {I})
         lemma_wbit_ext(w, 0{I});
     }
 }
+// funnel shift: (w1 >> s) | (w2 << (WB - s)), 0 < s < WB
+pub proof fn lemma_funnel(w1: {I}, w2: {I}, s: {I}, j: {I})
+    requires 0 < s < {I.bits}, j < {I.bits}
+    ensures wbit((w1 >> s) | (w2 << (({I.bits} - s) as {I})), j as nat) ==
+        (if j + s < {I.bits} { wbit(w1, (j + s) as nat) } else { wbit(w2, (j + s - {I.bits}) as nat) })
+{
+    lemma_wbit_or(w1 >> s, w2 << (({I.bits} - s) as {I}), j);
+    lemma_wbit_shr(w1, s, j);
+    lemma_wbit_shl(w2, ({I.bits} - s) as {I}, j);
+}
+// index of bit s + b in terms of word/offset coordinates
+pub proof fn lemma_add_idx(s: int, b: int)
+    requires 0 <= s, 0 <= b
+    ensures
+        b % {I.bits} + s % {I.bits} < {I.bits} ==> ((s + b) / {I.bits} == s / {I.bits} + b / {I.bits} && (s + b) % {I.bits} == b % {I.bits} + s % {I.bits}),
+        b % {I.bits} + s % {I.bits} >= {I.bits} ==> ((s + b) / {I.bits} == s / {I.bits} + b / {I.bits} + 1 && (s + b) % {I.bits} == b % {I.bits} + s % {I.bits} - {I.bits}),
+{
+}
